@@ -12,6 +12,7 @@ CONSTANTS
  DevHealthNotChecked <- None
  DevDegradedPasses = FALSE
  DevGateHoisted = FALSE
+ DevIgnoreCtxErrors = FALSE
 INIT TInit
 NEXT TNext
 POSTCONDITION Reached
